@@ -124,6 +124,10 @@ def compare_obs(spec_obs, log, keymap):
         out.append(('C01', f'observation {i}: the mapping passed to put_variable was modified (aliased into the variable tree)'))
       if r['did'] != s['did']:
         out.append(('C01', f'observation {i}: mapping put_variable executed={r["did"]}, specification {s["did"]}'))
+    elif s['k'] == 'nested':
+      if r['n'] != s['n']:
+        out.append(('C01', f'observation {i}: a nested Other.apply(..., mutable=["intermediates"]) returned {r["n"]} intermediates, '
+                           f'on its own it returns {s["n"]} (the outer call\'s capture settings leaked into it)'))
     elif s['k'] == 'bool':
       if r['v'] != s['v']:
         out.append(('C01', f'observation {i}: sow returned {r["v"]}, specification {s["v"]}'))
